@@ -777,6 +777,14 @@ class EagerGen:
     def __iter__(self):
         return iter(self.items)
 
+    def __next__(self):
+        # `next(gen)` on an eagerly evaluated generator: items in order, then StopIteration carrying the return value
+        pos = self.__dict__.setdefault('_pos', 0)
+        if pos < len(self.items):
+            self.__dict__['_pos'] = pos + 1
+            return self.items[pos]
+        raise StopIteration(self.value)
+
 
 def _own_nodes(fn):
     stack = list(fn.body) if hasattr(fn, 'body') and isinstance(fn.body, list) else [fn.body]
